@@ -21,10 +21,10 @@ import sys
 import types
 
 # "@c1" is a *module global* named c1: the closure cell c1 of every site factory hides it
-GLOBALS = ["G0", "G1", "G2", "@c1"]
+GLOBALS = ["G0", "G1", "G2", "@c1", "max"]  # `max`: a global spelled like a builtin
 CLASSATTRS = ["K0.A", "K0.In.B"]
 MODATTRS = ["simcfg.m"]
-CELLS = ["c0", "c1"]
+CELLS = ["c0", "c1", "min"]  # `min`: a closure cell spelled like a builtin
 ALL_NAMES = GLOBALS + CLASSATTRS + MODATTRS + CELLS
 
 INITIAL = {
@@ -36,6 +36,8 @@ INITIAL = {
     "simcfg.m": ["int", 6],
     "c0": ["int", 9],
     "c1": ["int", 11],
+    "min": ["int", 25],
+    "max": ["float", 40.5],
     "@c1": ["int", 5151],
 }
 
@@ -107,20 +109,25 @@ def render(sites, initial=INITIAL) -> str:
         out.append(f"def make_site_{k}():\n")
         out.append(f"    c0 = {_lit(initial['c0'])}\n")
         out.append(f"    c1 = {_lit(initial['c1'])}\n")
+        out.append(f"    min = {_lit(initial['min'])}\n")
         out.append("    def site(s):\n")
         out.append(f"        return s.{op}({lam})\n")
         out.append("    def ref():\n")
         out.append(f"        return ({lam})\n")
         out.append("    def rebind(n, v):\n")
-        out.append("        nonlocal c0, c1\n")
+        out.append("        nonlocal c0, c1, min\n")
         out.append("        if n == 'c0':\n")
         out.append("            c0 = v\n")
+        out.append("        elif n == 'min':\n")
+        out.append("            min = v\n")
         out.append("        else:\n")
         out.append("            c1 = v\n")
         out.append("    def unbind(n):\n")
-        out.append("        nonlocal c0, c1\n")
+        out.append("        nonlocal c0, c1, min\n")
         out.append("        if n == 'c0':\n")
         out.append("            del c0\n")
+        out.append("        elif n == 'min':\n")
+        out.append("            del min\n")
         out.append("        else:\n")
         out.append("            del c1\n")
         out.append("    return site, ref, rebind, unbind\n")
